@@ -83,6 +83,10 @@ func cmdRun(args []string) int {
 		t1 := time.Now()
 		ex := &Explorer{Prog: P, Harness: h, SolverName: *solver, TimeoutMs: *timeout, Workers: *workers,
 			Bounds: parseBounds(*bounds), ExpectPanic: *expectPanic}
+		if *solver == "z3" {
+			ex.TimeoutMs = 2500
+			ex.FallbackName, ex.FallbackTimeoutMs = "cvc5", *timeout
+		}
 		ex.Run()
 		st := ex.Stats
 		fmt.Printf("%s: paths=%d vacuous=%d panicked=%d unsupported=%d cap=%d decisions=%d obligations=%d discharged=%d (concrete %d) inconclusive=%d steps=%d queries=%d (sat %d unsat %d unknown %d err %d) solver=%.1fs wall=%.1fs\n",
